@@ -417,11 +417,6 @@ def untok_num(t):
 
 
 def classify(f):
-    c = f.case
-    d = f.detail or {}
-    if c.get('k') == 'frame' and f.kind == 'oracle' and d.get('exc') == 'ErrorInitFrame' and d.get('cpos') == [] \
-            and c['spec']['rows'] > 0 and c['rk'][0] != 'all':
-        return 'F28'
     return None
 
 
